@@ -150,7 +150,7 @@ def run_hist(hist, check_from=0):
                 continue
             for w, l in zip(want_out, new_out):
                 if isinstance(w, str):
-                    if l != w:
+                    if not outparse.same_notice(l, w):
                         V.append(Violation('connections.notice', case, dict(step, expected=w, observed=l)))
                 elif w[0] == 'orphan':
                     if outparse.classify(l)[0] != 'message' or '@77' not in l or '.foo(' not in l:
